@@ -353,6 +353,20 @@ theorem hybrid_bilevel_exact (lum : Array Nat) (w h : Nat) (hw : 40 ≤ w) (hh :
   · intro hp
     exact h2 X Y 0 hX hY hp (by simp)
 
+/-- the same as a statement about the rendered `w x h` bit picture (`render` replays the `BitMatrix.Set`
+    calls): **blackMatrix = { p = 0 }** -/
+theorem hybrid_bilevel_exact_matrix (lum : Array Nat) (w h : Nat) (hw : 40 ≤ w) (hh : 40 ≤ h)
+    (hsz : lum.size = w * h) (hbi : Bilevel lum) :
+    ∃ sets, hybridSets lum w h = .ok sets ∧
+      ∀ X Y, X < w → Y < h →
+        (render w h sets)[Y * w + X]? = some (decide (lum[Y * w + X]? = some 0)) := by
+  obtain ⟨sets, hs, _, hiff⟩ := hybrid_bilevel_exact lum w h hw hh hsz hbi
+  refine ⟨sets, hs, ?_⟩
+  intro X Y hX hY
+  rw [render_spec w h sets X Y hX hY]
+  congr 1
+  exact decide_eq_decide.mpr (hiff X Y hX hY)
+
 /-- non-vacuity: a 40x41 picture with both colours satisfies the hypotheses -/
 example : let lum : Array Nat := Array.ofFn (n := 40 * 41) (fun i => if i.val % 3 = 0 then 0 else 255)
     lum.size = 40 * 41 ∧ Bilevel lum := by
